@@ -33,7 +33,11 @@ const (
 	NumLat
 )
 
-const maxTasks = 32
+const maxTasks = 512
+
+// MaxTasks bounds the number of tasks of one run (top-level tasks plus
+// goroutines started by the code under test).
+const MaxTasks = maxTasks
 
 // Config is fixed per run (drawn from the tape by the caller).
 type Config struct {
@@ -136,7 +140,9 @@ type Sched struct {
 	pctPts [8]int
 	cand   [maxTasks]int
 
-	active bool
+	active  bool
+	wg      sync.WaitGroup
+	Spawned int // goroutines started by the code under test and run as tasks
 }
 
 // Current is the scheduler of the run in progress (nil outside the concurrent
@@ -710,7 +716,7 @@ func (s *Sched) Run(fns []func(*Task)) bool {
 	if len(fns) > maxTasks {
 		panic("too many tasks")
 	}
-	var wg sync.WaitGroup
+	wg := &s.wg
 	s.giveUp = make(chan struct{})
 	s.n = len(fns)
 	s.live = len(fns)
@@ -720,7 +726,7 @@ func (s *Sched) Run(fns []func(*Task)) bool {
 	Current = s
 	for i, fn := range fns {
 		wg.Add(1)
-		go s.taskMain(s.tasks[i], fn, &wg)
+		go s.taskMain(s.tasks[i], fn, wg)
 	}
 	// Let every task record its goroutine id and park. (Parking is not
 	// required for correctness: wake is buffered.)
@@ -770,6 +776,80 @@ func (s *Sched) keptAndBlocked() bool {
 	buf := make([]byte, 1<<20)
 	dump := buf[:runtime.Stack(buf, true)]
 	return goroutineBlocked(dump, t.goid)
+}
+
+// N returns the number of tasks of the run, spawned ones included.
+//
+//go:norace
+func (s *Sched) N() int { return s.n }
+
+// Spawn is called by the running task immediately before a go statement of
+// the code under test. It registers the goroutine about to start as a new
+// task (runnable from now on, it starts when the scheduler first picks it)
+// and returns its handle, or -1 outside a simulated phase. The go statement
+// itself is ordinary, visible synchronisation: what the parent did before it
+// happens-before everything the child does, as in production.
+//
+//go:norace
+func (s *Sched) Spawn() int {
+	if !s.active {
+		return -1
+	}
+	t := s.tasks[s.cur]
+	if curGoid() != t.goid {
+		s.Foreign = true
+		return -1
+	}
+	if s.n >= maxTasks {
+		s.Foreign = true // more goroutines than the simulator has room for
+		return -1
+	}
+	raceDisable()
+	id := s.n
+	c := &Task{ID: id, wake: make(chan struct{}, 1)}
+	if s.cfg.Mode == ModePCT {
+		c.prio = 1 + s.tape.Choose(1000)
+	}
+	s.tasks[id] = c
+	s.n++
+	s.live++
+	s.Spawned++
+	s.mixHash(t.ID, KindOp, "go")
+	raceEnable()
+	s.wg.Add(1)
+	return id
+}
+
+// Enter is the first thing a spawned goroutine does: it records which
+// goroutine it is and waits for the baton.
+//
+//go:norace
+func (s *Sched) Enter(h int) {
+	if h < 0 || h >= s.n {
+		return
+	}
+	t := s.tasks[h]
+	t.goid = curGoid()
+	raceDisable()
+	<-t.wake
+	raceEnable()
+}
+
+// Exit is the last thing a spawned goroutine does (deferred): the task ends
+// and the baton moves on. pv is the value the goroutine panicked with, if any.
+func (s *Sched) Exit(h int, pv any) {
+	if h < 0 || h >= s.n {
+		if pv != nil {
+			panic(pv)
+		}
+		return
+	}
+	t := s.tasks[h]
+	if pv != nil {
+		t.Panic = pv
+	}
+	s.finish(t)
+	s.wg.Done()
 }
 
 // TaskPanic returns the panic value of task i, if it panicked outside an
